@@ -33,7 +33,7 @@ manifest = {
         "guard": "SNOWFAKERY_VERIF",
         "enable": "no hooks are compiled into /repo: raw-row capture, draw recording and op tracing are done from the harness side (monkey-patching at run time); the guard name is reserved and unused",
         "baseline_off_cmd": "cd /repo && /venv/bin/python -m pytest -ra -q -p no:cacheprovider --timeout=900 --continue-on-collection-errors",
-        "source_commits": FIX_COMMITS,
+        "source_commits": [],
         "add_only": True,
     },
     "engines": [
@@ -45,7 +45,7 @@ manifest = {
          "kind_free_text": "correspondence check model<->implementation on generated inputs / op sequences / histories, direct oracles and failing-input search, known-findings plumbing"},
     ],
     "checks": checks,
-    "notes": "See DESIGN.md. Every check: regenerate pins, lake build theorems, audit axioms, correspondence + direct oracle, classify. Known findings: known_findings.json.",
+    "notes": "See DESIGN.md. Every check: regenerate pins, lake build theorems, audit axioms, correspondence + direct oracle, classify. Known findings: known_findings.json. No hook commits exist in /repo (hooks.source_commits is empty); the unguarded fix: commits in /repo are: " + ", ".join(FIX_COMMITS) + ".",
     "not_applicable": [{"property_id": p, "reason": NOT_CLAIMED.get(p, "check not built yet")} for p in ALL if p not in PROPS],
 }
 with open(os.path.join(ROOT, "MANIFEST.json"), "w") as f:
